@@ -332,3 +332,109 @@ def min_angle_deg(pts):
         if ang < best:
             best = ang
     return best
+
+
+# ------------------------------------------------------------------------------------ affine maps (2x3)
+# M = (a, b, c, d, e, f):  x' = a x + b y + c ;  y' = d x + e y + f
+IDENT = (1.0, 0.0, 0.0, 0.0, 1.0, 0.0)
+
+
+def m_apply(M, p):
+    return (M[0] * p[0] + M[1] * p[1] + M[2], M[3] * p[0] + M[4] * p[1] + M[5])
+
+
+def m_lin(M, v):
+    return (M[0] * v[0] + M[1] * v[1], M[3] * v[0] + M[4] * v[1])
+
+
+def m_mul(A, B):
+    """A after B"""
+    return (A[0] * B[0] + A[1] * B[3], A[0] * B[1] + A[1] * B[4], A[0] * B[2] + A[1] * B[5] + A[2],
+            A[3] * B[0] + A[4] * B[3], A[3] * B[1] + A[4] * B[4], A[3] * B[2] + A[4] * B[5] + A[5])
+
+
+def m_placement(mag, xrefl, rot, origin):
+    """magnify, then reflect across x, then rotate, then translate (the documented order)"""
+    ca, sa = math.cos(rot), math.sin(rot)
+    sy = -1.0 if xrefl else 1.0
+    return (mag * ca, -mag * sy * sa, origin[0], mag * sa, mag * sy * ca, origin[1])
+
+
+def m_translate(v):
+    return (1.0, 0.0, v[0], 0.0, 1.0, v[1])
+
+
+def m_scale(sx, sy, c):
+    return (sx, 0.0, c[0] - sx * c[0], 0.0, sy, c[1] - sy * c[1])
+
+
+def m_rotate(a, c):
+    ca, sa = math.cos(a), math.sin(a)
+    return (ca, -sa, c[0] - ca * c[0] + sa * c[1], sa, ca, c[1] - sa * c[0] - ca * c[1])
+
+
+def m_mirror(p0, p1):
+    dx, dy = p1[0] - p0[0], p1[1] - p0[1]
+    l2 = dx * dx + dy * dy
+    if l2 == 0:
+        return IDENT
+    a = (dx * dx - dy * dy) / l2
+    b = 2 * dx * dy / l2
+    # reflection about the line through p0 with direction (dx,dy):  R = [[a,b],[b,-a]],  x' = R (x - p0) + p0
+    return (a, b, p0[0] - a * p0[0] - b * p0[1], b, -a, p0[1] - b * p0[0] + a * p0[1])
+
+
+def m_det(M):
+    return M[0] * M[4] - M[1] * M[3]
+
+
+def m_close(A, B, tol=1e-9):
+    s = max(1.0, max(abs(x) for x in A), max(abs(x) for x in B))
+    return all(abs(x - y) <= tol * s for x, y in zip(A, B))
+
+
+# ------------------------------------------------------------------------------------ float regions
+def fwinding(pts, px, py):
+    wn = 0
+    n = len(pts)
+    for i in range(n):
+        ax, ay = pts[i]
+        bx, by = pts[i + 1 - n]
+        if ay <= py:
+            if by > py and (bx - ax) * (py - ay) - (by - ay) * (px - ax) > 0:
+                wn += 1
+        elif by <= py and (bx - ax) * (py - ay) - (by - ay) * (px - ax) < 0:
+            wn -= 1
+    return wn
+
+
+def region_diff(P, Q, rnd, guard, samples=200, near=0.5):
+    """P, Q: lists of polygons (float vertices). Returns None if they cover the same points at every sample farther than
+    guard from both boundaries, else a witness point."""
+    allp = [p for poly in P + Q for p in poly]
+    if not allp:
+        return None
+    x0 = min(p[0] for p in allp)
+    x1 = max(p[0] for p in allp)
+    y0 = min(p[1] for p in allp)
+    y1 = max(p[1] for p in allp)
+    w = max(x1 - x0, y1 - y0, guard * 10)
+    tested = 0
+    g2 = guard * guard
+    for t in range(samples * 6):
+        if tested >= samples:
+            break
+        if rnd.random() < near:
+            vx, vy = rnd.choice(allp)
+            r_ = guard * rnd.choice([1.5, 3, 8, 20])
+            px, py = vx + rnd.uniform(-r_, r_), vy + rnd.uniform(-r_, r_)
+        else:
+            px, py = rnd.uniform(x0 - 0.05 * w, x1 + 0.05 * w), rnd.uniform(y0 - 0.05 * w, y1 + 0.05 * w)
+        if min_dist2([P, Q], px, py) < g2:
+            continue
+        tested += 1
+        a = sum(1 for poly in P if fwinding(poly, px, py) != 0)
+        b = sum(1 for poly in Q if fwinding(poly, px, py) != 0)
+        if (a > 0) != (b > 0):
+            return (px, py, a, b)
+    return None
